@@ -316,6 +316,8 @@ class Envelope:
         # Check if given states are part of this envelope
         for s in states:
             assert s in [self.fock, self.polarization]
+            if s is not None and s.measured:
+                raise ValueError("The state has already been destructively measured")
 
         outcomes = {}
         reshape_shape = []
